@@ -83,18 +83,21 @@ def int_table(ctx: Ctx):
     nodes, edges, inits, r = tlc.dump_graph(mod, cfgn, extra_files=files)
     ctx.add_tlc("IntDraw table", r)
     st = MersenneTwister(1)
-    if not hasattr(st, "_random"):
-        ctx.binding["int_table"] = "diverged: no _random attribute"
+    # the wrapped generator is found by its type (random.Random), not by its private name
+    import random as _rnd
+    gen_attr = next((k for k, v in vars(st).items() if isinstance(v, _rnd.Random)), None)
+    if gen_attr is None:
+        ctx.binding["int_table"] = "diverged: the stream does not wrap a random.Random instance"
         return
     n = 0
     for node in nodes.values():
         row = node["row"]
         s = MersenneTwister(1)
-        s._random = Scripted(row["k"] / den)
+        setattr(s, gen_attr, Scripted(row["k"] / den))
         try:
             res = s.next_int(row["lo"], row["hi"])
-            calls = s._random.calls
-            s._random = Scripted(row["k"] / den)
+            calls = getattr(s, gen_attr).calls
+            setattr(s, gen_attr, Scripted(row["k"] / den))
             b = s.next_bool()
         except Exception as ex:
             ctx.violation(f"int_table|exception|{type(ex).__name__}", f"next_int({row['lo']},{row['hi']}) with uniform {row['k']}/{den}: {ex}", dict(row))
@@ -111,7 +114,7 @@ def int_table(ctx: Ctx):
         size = "beyond_float" if hi - lo + 1 > 1.7e308 else str(lo)
         for u in (0.0, 5e-324, 2.0 ** -53, 0.5, 1 - 2.0 ** -53):
             s = MersenneTwister(1)
-            s._random = Scripted(u)
+            setattr(s, gen_attr, Scripted(u))
             try:
                 res = s.next_int(lo, hi)
                 if not (lo <= res <= hi):
